@@ -554,6 +554,41 @@ def indent(repo):
                     "line's leading whitespace", TOK, ded.lineno, f.name)
         if not ded.orelse or not any(isinstance(x, ast.Return) for st in ded.orelse for x in ast.walk(st)):
             res.add(f"{TOK}|{f.name}|dedent-error", "an indentation that matches no open level is no longer an error", TOK, ded.lineno, f.name)
+    # positions of the synthesized tokens inside the per-line loop: an Indent covers exactly the added whitespace
+    # (its text is the slice its columns name), a Dedent is zero-width at the end of the line's (shorter) leading
+    # whitespace -- where the first real token of the line starts -- so every token list stays in source order and a
+    # parent node's span, merged from its tokens, contains its children
+    line_loops = [n for n in walk_no_nested_funcs(f.node) if isinstance(n, ast.For) and any(
+        isinstance(c, ast.Call) and token_kind(c) == "Indent" for c in ast.walk(n))]
+    if line_loops and pushes and isinstance(pushes[0].args[0], ast.Name):
+        lead = pushes[0].args[0].id
+        psyms = {
+            "LW": lambda n: isinstance(n, ast.Call) and call_name(n) == "len" and len(n.args) == 1
+            and isinstance(n.args[0], ast.Name) and n.args[0].id == lead,
+            "TOP": lambda n: isinstance(n, ast.Call) and call_name(n) == "len" and len(n.args) == 1
+            and ast.unparse(n.args[0]) == "indent_stack[-1]",
+        }
+        for c in ast.walk(line_loops[0]):
+            kind = token_kind(c) if isinstance(c, ast.Call) else None
+            if kind not in ("Indent", "Dedent") or len(c.args) != 3:
+                continue
+            res.instances += 1
+            loc = c.args[2]
+            if not (isinstance(loc, ast.Call) and len(loc.args) == 2 and all(isinstance(a, ast.Tuple) and len(a.elts) == 2 for a in loc.args)):
+                res.add(f"{TOK}|{f.name}|{kind}-loc", f"{kind} location is not SourceLocation((line, col), (line, col))", TOK, c.lineno, f.name)
+                continue
+            c1, c2 = linear(loc.args[0].elts[1], psyms), linear(loc.args[1].elts[1], psyms)
+            want = ({"TOP": 1, 1: 1}, {"LW": 1, 1: 1}) if kind == "Indent" else ({"LW": 1, 1: 1}, {"LW": 1, 1: 1})
+            if (c1, c2) != want:
+                res.add(f"{TOK}|{f.name}|{kind}-columns", f"{kind} token is located at columns (`{ast.unparse(loc.args[0].elts[1])}`, "
+                        f"`{ast.unparse(loc.args[1].elts[1])}`); "
+                        + ("it must cover the added whitespace: len(indent_stack[-1]) + 1 .. len(leading whitespace) + 1"
+                           if kind == "Indent" else
+                           "a mid-file Dedent is zero-width at len(leading whitespace) + 1, where the new, shorter leading whitespace "
+                           "ends: anywhere else the token list is out of source order for a partial dedent and enclosing nodes no "
+                           "longer contain their children"), TOK, c.lineno, f.name)
+    else:
+        raise AnalysisError("tokenizer: the per-line loop that synthesizes Indent tokens was not found")
     # what counts as "leading whitespace": the prefix whose changes Indent/Dedent mirror must be made of exactly the
     # characters the token table skips as blanks (the symbol-less pattern, `\\s+`); a narrower strip (`lstrip(" \\t")`)
     # lets a form feed or U+00A0 at the start of a line be skipped as a gap without being indentation
